@@ -13,6 +13,8 @@ def run(rep, tier):
     suvfam_scen.extra(fam, "C14")
     fam.run(scenario=suvfam_scen.scenario)
     rotate_by_matrix(rep)
+    from props import C13
+    C13.run_factories(rep, "C14")       # "asking a factory for an out-of-range index": the rejection clauses of the five factories' contracts
 
 
 def rotate_by_matrix(rep):
